@@ -142,7 +142,19 @@ impl<'r, R: Read> Block<'r, R> {
     /// the block. The objects are stored in an internal buffer to the `Reader`.
     fn read_block_next(&mut self) -> AvroResult<()> {
         assert!(self.is_empty(), "Expected self to be empty!");
-        match util::read_usize(&mut self.reader).map_err(Error::into_details) {
+        // Only an end of input *before* the first byte of the block count is a clean end of the
+        // file; an end of input inside the count is a truncated block.
+        let mut first = [0u8; 1];
+        loop {
+            match self.reader.read(&mut first) {
+                Ok(0) => return Ok(()),
+                Ok(_) => break,
+                Err(e) if e.kind() == ErrorKind::Interrupted => {}
+                Err(e) => return Err(Details::ReadVariableIntegerBytes(e).into()),
+            }
+        }
+        let mut count_reader = (&first[..]).chain(&mut self.reader);
+        match util::read_usize(&mut count_reader).map_err(Error::into_details) {
             Ok(block_len) => {
                 self.message_count = block_len;
                 let block_bytes = util::read_usize(&mut self.reader)?;
@@ -163,14 +175,6 @@ impl<'r, R: Read> Block<'r, R> {
                 // We can address this by using some "limited read" type to decode directly
                 // into the buffer. But this is fine, for now.
                 self.codec.decompress(&mut self.buf)
-            }
-            Err(Details::ReadVariableIntegerBytes(io_err)) => {
-                if let ErrorKind::UnexpectedEof = io_err.kind() {
-                    // to not return any error in case we only finished to read cleanly from the stream
-                    Ok(())
-                } else {
-                    Err(Details::ReadVariableIntegerBytes(io_err).into())
-                }
             }
             Err(e) => Err(Error::new(e)),
         }
